@@ -88,7 +88,7 @@ static void stage_automaton(Run &R) {
 static void stage_bounded(Run &R) {
     static const char AL[] = {'a', '.', '"', '\\', ' ', '\t', '\r', '\n', '(', 0x01, 0x7f, (char) 0x80, '#'};
     const int K = sizeof AL;
-    int maxlen = R.a.thorough ? 7 : 6;
+    int maxlen = R.a.thorough ? 8 : 6;
     uint64_t total = 0, idx = 0;
     // enumerate by (first two symbols) partition for the workers
     std::vector<int> d(maxlen, 0);
